@@ -45,6 +45,9 @@ def halphabet(tier):
         # every message leaves at once without an EXPUNGE (the numbering starts again at 1), messages are parsed before they go
         {"s": A, "op": "rename", "m": "INBOX", "to": "old"},
         {"s": A, "op": "fetch", "set": "1:*", "items": "(BODY.PEEK[HEADER.FIELDS (SUBJECT)])"},
+        # structural items are asked for (and may be remembered) before messages go and come
+        {"s": A, "op": "fetch", "set": "*", "items": "(ENVELOPE BODYSTRUCTURE)"},
+        {"s": A, "op": "fetch", "set": "1:*", "items": "(ENVELOPE BODY)", "uid": True},
     ]
 
 
@@ -74,11 +77,12 @@ def run(tier, seed, jobs, prefix=PREFIX, prop=PROP) -> Result:
         "shapes": len(shapes), "fixtures": len(fx), "exhaustive": True,
         "samples": [list(shapes[1]), list(shapes[len(shapes) // 2]), list(shapes[-1])],
     }
-    if prop == "C16":
-        # H part: the equations on every state a short history reaches (start from non-initial states)
+    if prop in ("C16", "C07"):
+        # H part: the equations on every state a short history reaches (start from non-initial states); for C07 the structural
+        # items (ENVELOPE, BODYSTRUCTURE) must describe the message they are sent for
         from .hcommon import run_h
 
-        hres = run_h("C16", ("C16.",), [{"cfg_ref": ("vf.props.c16", "hcfg", []), "alphabet": halphabet(tier),
+        hres = run_h(prop, (prefix,), [{"cfg_ref": ("vf.props.c16", "hcfg", []), "alphabet": halphabet(tier),
                                          "depth": 4 if tier == "quick" else 5, "label": "INBOX(3), sizes asked / messages come and go"}],
                      ("C16",), jobs, seed, [], time_budget=60 if tier == "quick" else 900)
         res.failures.extend(hres.failures)
@@ -86,7 +90,7 @@ def run(tier, seed, jobs, prefix=PREFIX, prop=PROP) -> Result:
         res.coverage["distinct_nontrivial"] += hres.coverage["states"]
         res.coverage["exhaustive"] = res.coverage["exhaustive"] and hres.coverage["exhaustive"]
         res.coverage["h_part"] = {k: hres.coverage[k] for k in ("states", "transitions", "bound", "caps_hit", "other_rules_seen") if k in hres.coverage}
-    res.assumptions = ["H part (C16 only): single session, INBOX(3) with messages of different sizes, pack limit as configured by the template; "
+    res.assumptions = ["H part (C07: the decoded ENVELOPE subject / message-id and BODYSTRUCTURE's octet count are those of the message the reference model expects at that UID): single session, INBOX(3) with messages of different sizes, pack limit as configured by the template; "
                        "after every history of <=4 (thorough 5) events: RFC822.SIZE = |BODY[]| = |HEADER|+|TEXT|, BODY[] is the model's message, SEARCH LARGER agrees",
                        "messages come from a fixed feature menu (vf/msggen.py); not arbitrary byte strings",
                        "header text is compared after RFC 2047 decoding and whitespace folding; bodies modulo line-ending convention, a final newline and "
@@ -100,7 +104,7 @@ def replay(rec, prefix=PREFIX):
     if rp["driver"] == "h":
         from .hcommon import replay_h
 
-        return replay_h("C16.", rec)
+        return replay_h(prefix, rec)
     if rp["driver"] == "msg":
         f, _ = msgcheck.work_shapes([tuple(rp["feats"])])
     elif rp["driver"] == "fixture":
